@@ -21,6 +21,8 @@ Property text → theorems
     for cylc-flow as found (finding `live-parent-any-output`): `live_parent_counterexample`; `live_parent_live`
     ties the truth of the full statement to the behaviour flag probed from the live code
 * the command handles each connected group on its own: `groups_cover`
+* "no member runs more than once per trigger" FAILS for cylc-flow as found when the command meets a member that is
+  pooled in other flows (finding `unpooled-object-triggered`): `unpooled_object_counterexample`
 
 Not proved here (see statement_note of harness/props/c28.py): the end-to-end liveness statement "each member runs
 exactly once more along every continuation" and the whole-command versions through `_remove_matched_tasks`.
@@ -237,6 +239,36 @@ example :
       (x.status == .preparing || x.status.isActive) = true ∧ x.flows.isEmpty = false ∧ x.flowWait = false := by
   refine ⟨_, _, rfl, rfl, ?_⟩
   decide +kernel
+
+/-! ### the unpooled object (finding `unpooled-object-triggered`) -/
+
+/-- `d; d[^]:x => e` on one cycle point: `1/e` has an absolute trigger on `1/d:x` only, so it counts as parentless -/
+def exGraphAbs : Graph :=
+  let outs : List OutDef := [⟨"submitted", "submitted"⟩, ⟨"started", "started"⟩, ⟨"succeeded", "succeeded"⟩]
+  { icp := 1, fcp := 1, start := 1, runahead := 1, seqs := [[1]], stopPoint := some 1,
+    tasks := [
+      { name := "d", firstParentless := some 1, completion := CE.var "succeeded", outputs := outs ++ [⟨"x", "xx"⟩],
+        insts := [(1, { pre := [], sui := [], children := [("xx", [⟨"e", 1, true⟩])], nextParentless := none,
+                        parentlessIcp := true })] },
+      { name := "e", firstParentless := some 1, completion := CE.var "succeeded", outputs := outs, hasAbs := true,
+        insts := [(1, { pre := [{ atoms := [(⟨1, "d", "xx"⟩, .no)], expr := none }], sui := [], children := [],
+                        nextParentless := none, trigParents := [(1, "d")], tdefAtoms := [⟨1, "d", "xx"⟩],
+                        parentlessIcp := true })] }] }
+
+/-- `1/d` running, `1/e` waiting in flow 1, then `cylc trigger --flow=new 1/d 1/e` -/
+def opsAbs : List Op :=
+  [.loop, .subres 1 "d" true 1, .msg 1 "d" 1 "started", .loop, .trigger [(1, "d"), (1, "e")] .new false []]
+
+/-- **Behaviour as found: one instance, two jobs.**  The command cannot remove the flow-1 proxy of `1/e`, spawns a
+second object for flow 2 that the pool refuses, and triggers it all the same: the next main loop submits `1/e`
+job 1 from the unpooled object, and when `1/d:x` arrives the pooled `1/e` is submitted as job 1 again.  With the
+repaired behaviour (flag `triggerUnpooled` false) there is one submission. -/
+theorem unpooled_object_counterexample :
+    (final exGraphAbs (opsAbs ++ [.loop])).launched = [(1, "e", 1)] ∧
+    (final exGraphAbs (opsAbs ++ [.loop, .msg 1 "d" 1 "xx", .loop, .loop])).launched = [(1, "e", 1)] ∧
+    (final { exGraphAbs with triggerUnpooled := false } (opsAbs ++ [.loop])).launched = [] ∧
+    (final { exGraphAbs with triggerUnpooled := false } (opsAbs ++ [.loop, .msg 1 "d" 1 "xx", .loop, .loop])).launched
+      = [(1, "e", 1)] := by decide +kernel
 
 /-- `groups_cover`, `off_group_forced`: a two-group command and a respawn with a forced off-group atom -/
 example : groupsOf exGraph [(1, "a"), (1, "b")] = [[(1, "a"), (1, "b")]] := by decide +kernel
